@@ -80,7 +80,27 @@ LAMBDAS = [
     [{'prim': 'DIP', 'args': [[{'prim': 'DROP'}, {'prim': 'UNIT'}]]}],
     # a constant of a domain type inside code: Tezos packs code in optimized mode too (PUSH key_hash 0x00...)
     [{'prim': 'DROP'}, {'prim': 'PUSH', 'args': [{'prim': 'key_hash'}, {'string': _KH_PUSH}]}, {'prim': 'DROP'}, {'prim': 'UNIT'}],
+    # the same with constants written as SEQUENCES: a list, a map, and a comb in sequence notation
+    [{'prim': 'DROP'}, {'prim': 'PUSH', 'args': [{'prim': 'list', 'args': [{'prim': 'key_hash'}]}, [{'string': _KH_PUSH}]]}, {'prim': 'DROP'}, {'prim': 'UNIT'}],
+    [{'prim': 'DROP'}, {'prim': 'PUSH', 'args': [{'prim': 'map', 'args': [{'prim': 'nat'}, {'prim': 'address'}]},
+                                                 [{'prim': 'Elt', 'args': [{'int': '1'}, {'string': _KH_PUSH}]}]]}, {'prim': 'DROP'}, {'prim': 'UNIT'}],
+    [{'prim': 'DROP'}, {'prim': 'PUSH', 'args': [{'prim': 'pair', 'args': [{'prim': 'nat'}, {'prim': 'nat'}, {'prim': 'nat'}, {'prim': 'key_hash'}]},
+                                                 [{'int': '1'}, {'int': '2'}, {'int': '3'}, {'string': _KH_PUSH}]]}, {'prim': 'DROP'}, {'prim': 'UNIT'}],
+    [{'prim': 'DROP'}, {'prim': 'PUSH', 'args': [{'prim': 'pair', 'args': [{'prim': 'nat'}, {'prim': 'pair', 'args': [{'prim': 'nat'}, {'prim': 'pair', 'args': [{'prim': 'nat'}, {'prim': 'key_hash'}]}]}]},
+                                                 [{'int': '1'}, {'int': '2'}, {'int': '3'}, {'string': _KH_PUSH}]]}, {'prim': 'DROP'}, {'prim': 'UNIT'}],
 ]
+
+
+def _nary_pair_type(e):
+    """code mentions a right comb TYPE of three or more components (however it is spelled)"""
+    if isinstance(e, list):
+        return any(_nary_pair_type(x) for x in e)
+    if isinstance(e, dict) and 'prim' in e:
+        a = e.get('args', [])
+        if e['prim'] == 'pair' and (len(a) > 2 or (len(a) == 2 and isinstance(a[1], dict) and a[1].get('prim') == 'pair' and not a[1].get('annots'))):
+            return True
+        return any(_nary_pair_type(x) for x in a)
+    return False
 
 
 def lam(code):
@@ -284,10 +304,31 @@ def shards(tier, seed):
 
 
 # ------------------------------------------------------------------------------------------------ reference side
+def fold_types(e):
+    """Tezos unparses a right comb type `pair a (pair b c)` as `pair a b c` (unless the inner pair is annotated)."""
+    if isinstance(e, list):
+        return [fold_types(x) for x in e]
+    if isinstance(e, dict) and 'prim' in e:
+        args = [fold_types(a) for a in e.get('args', [])]
+        if e['prim'] == 'pair' and len(args) >= 2:
+            last = args[-1]
+            if isinstance(last, dict) and last.get('prim') == 'pair' and not last.get('annots'):
+                args = args[:-1] + last['args']
+        out = dict(e)
+        if args:
+            out['args'] = args
+        return out
+    return e
+
+
 def opt_code(code):
-    """Code as Tezos packs it: constants of PUSH are rendered in optimized mode."""
+    """Code as Tezos packs it: constants of PUSH are rendered in optimized mode, comb types are folded."""
+    return fold_types(_opt_code(code))
+
+
+def _opt_code(code):
     if isinstance(code, list):
-        return [opt_code(x) for x in code]
+        return [_opt_code(x) for x in code]
     if isinstance(code, dict) and 'prim' in code:
         if code['prim'] == 'PUSH' and len(code.get('args', [])) == 2 and not code.get('annots'):
             try:
@@ -297,7 +338,7 @@ def opt_code(code):
             except Exception:
                 return code
         if code.get('args'):
-            return dict(code, args=[opt_code(a) for a in code['args']])
+            return dict(code, args=[_opt_code(a) for a in code['args']])
     return code
 
 
@@ -524,6 +565,8 @@ def leaf_class(t, v):
     if p == 'pair':
         return f'pair (comb of {comb_len(t)})'
     if p == 'lambda':
+        if v[0] in ('lam', 'lamrec') and _nary_pair_type(json.loads(v[1])):
+            return 'lambda whose code spells a comb type with more than two arguments'
         return 'lambda with a PUSH constant of a domain type' if v != norm(t, v) else 'lambda'
     if p in ('set', 'map') and has_prim(t[1], 'unit'):
         return 'set / map whose key type holds unit'
